@@ -190,6 +190,14 @@ static lp_polynomial_t* coeff_poly(void) {
 }
 
 /* polynomial with main variable y = x3 as a product of 1-2 factors with coefficients in x0..x2 */
+/* does the main variable occur (asked without relying on the variable order in force) */
+static int poly_has_y(const lp_polynomial_t* p) {
+  lp_variable_list_t vs; lp_variable_list_construct(&vs);
+  lp_polynomial_get_variables(p, &vs);
+  int yes = lp_variable_list_index(&vs, hp_x[3]) != -1;
+  lp_variable_list_destruct(&vs);
+  return yes;
+}
 static lp_polynomial_t* main_poly(void) {
   /* the same rational root reached through two different square-free factors, one of them linear in y under the assignment and
      one not: (y - x_i)^2 * (y^2 - c^2) or (y - x_i)^2 * (y - c)(y - c - 1) with x_i -> c */
@@ -200,6 +208,15 @@ static lp_polynomial_t* main_poly(void) {
                                     : P_mul(P_sub(P_var(3, 1), P_const(c)), P_sub(P_var(3, 1), P_const(c + 1)));
     return P_mul(P_mul(lin, lin2), q);
   }
+  /* a high, sparse power of one quadratic irrational coordinate: the elimination runs through a subresultant chain with a
+     degree drop of 4 or more (y - x_i^6 - a x_i^e - b, or (y - x_i^5)(y + x_i^6 + c)) */
+  if (chance(7)) for (int i = 0; i < nvals; ++i)
+    if (vals[i].type == LP_VALUE_ALGEBRAIC && vals[i].value.a.f && lp_upolynomial_degree(vals[i].value.a.f) == 2) {
+      lp_polynomial_t* H = P_add(P_var(i, 6), P_add(P_scale(P_var(i, 1 + rnd(2)), rnd_in(-3, 3)), P_const(rnd_in(-4, 4))));
+      lp_polynomial_t* q = P_sub(P_var(3, 1), H);
+      if (chance(35)) q = P_mul(q, P_sub(P_var(3, 1), P_var(i, 5)));
+      return q;
+    }
   lp_polynomial_t* p = P_const(1);
   int nf = 1 + rnd(2);
   for (int j = 0; j < nf; ++j) {
@@ -219,7 +236,7 @@ static lp_polynomial_t* main_poly(void) {
     p = P_mul(p, f);
   }
   if (chance(15)) p = P_mul(p, coeff_poly());          /* content that may vanish */
-  if (lp_polynomial_is_constant(p) || lp_polynomial_top_variable(p) != hp_x[3]) { lp_polynomial_delete(p); p = P_sub(P_var(3, 2), P_var(0, 1)); }
+  if (lp_polynomial_is_constant(p) || !poly_has_y(p)) { lp_polynomial_delete(p); p = P_sub(P_var(3, 2), P_var(0, 1)); }
   return p;
 }
 
@@ -279,6 +296,11 @@ static void probe_membership(const lp_feasibility_set_t* s) {
 
 static void main_case(int mode) {
   int kind = 0;
+  /* sometimes the polynomial is an external polynomial built under the REVERSED variable order; the order is restored before the
+     first library call on it (root isolation / feasible set / root constraint), which has to re-order it by itself */
+  int stale = chance(12); char* tokP = 0; lp_polynomial_t* tw = 0;
+  if (stale) hp_stale_begin();
+#define PP() do { if (tokP) { sb_str(tokP); free(tokP); tokP = 0; } else sb_poly(p); } while (0)
   lp_polynomial_t* T = scenario(&kind);
   if (T) lp_polynomial_delete(T);
   int degenerate = chance(12);
@@ -292,10 +314,17 @@ static void main_case(int mode) {
     lp_value_destruct(&vals[0]); val_rat(&vals[0], rnd_in(-3, 3), 1 + rnd(2));
   }
   lp_polynomial_t* p = degenerate ? degenerate_poly() : main_poly();
+  if (stale) {
+    tw = lp_polynomial_new_copy(p); tokP = hp_tok(p);
+    lp_polynomial_set_external(p);
+    hp_stale_end();
+    lp_polynomial_ensure_order(tw);
+  }
+  const lp_polynomial_t* Q = stale ? tw : p;      /* whom to ask about the shape of p before the first call */
   /* keep the eliminations affordable for the library under the sanitizers: deg_y(p) times the degrees of the assigned algebraic
      numbers bounds the degree of the eliminant; beyond 16 the last irrational coordinates are replaced by rationals */
   for (int i = nvals - 1; i >= 0; --i) {
-    size_t cost = lp_polynomial_degree(p);
+    size_t cost = lp_polynomial_degree(Q);
     for (int j = 0; j < nvals; ++j) if (vals[j].type == LP_VALUE_ALGEBRAIC && vals[j].value.a.f) cost *= lp_upolynomial_degree(vals[j].value.a.f);
     if (cost <= 16) break;
     if (vals[i].type == LP_VALUE_ALGEBRAIC && vals[i].value.a.f) { lp_value_destruct(&vals[i]); val_rat(&vals[i], rnd_in(-3, 3), 1 + rnd(2)); }
@@ -304,9 +333,9 @@ static void main_case(int mode) {
   set_vals();
   lp_polynomial_set_external(p);
   if (mode == 1) {
-    size_t d = lp_polynomial_degree(p), n = 0;
+    size_t d = lp_polynomial_degree(Q), n = 0;
     lp_value_t* roots = (lp_value_t*)malloc((d + 1) * sizeof(lp_value_t));
-    sb_begin("ev", "roots"); sb_sp(); sb_poly(p); sb_sp(); sb_asg(); sb_arrow();
+    sb_begin("ev", "roots"); sb_sp(); PP(); sb_sp(); sb_asg(); sb_arrow();
     lp_polynomial_roots_isolate(p, M, roots, &n);
     sb_sp(); sb_ulong(n);
     for (size_t k = 0; k < n; ++k) { sb_sp(); sb_val(&roots[k]); lp_value_destruct(&roots[k]); }
@@ -326,7 +355,7 @@ static void main_case(int mode) {
   } else {
     int cond = rnd(6), neg = chance(40);
     if (chance(70)) {
-      sb_begin("ev", "fs"); sb_sp(); sb_poly(p); sb_sp(); sb_long(cond); sb_sp(); sb_long(neg); sb_sp(); sb_asg(); sb_arrow();
+      sb_begin("ev", "fs"); sb_sp(); PP(); sb_sp(); sb_long(cond); sb_sp(); sb_long(neg); sb_sp(); sb_asg(); sb_arrow();
       lp_feasibility_set_t* s = lp_polynomial_constraint_get_feasible_set(p, (lp_sign_condition_t)cond, neg, M);
       sb_sp(); sb_vset(s); sb_emit();
       if (chance(60)) probe_membership(s);
@@ -345,7 +374,7 @@ static void main_case(int mode) {
     } else if (chance(45)) {
       /* root constraint evaluated with the main variable assigned: at the roots, between them, outside, and at random values;
          every condition and root indices up to one past the degree (not enough roots => false) */
-      size_t d = lp_polynomial_degree(p), n = 0;
+      size_t d = lp_polynomial_degree(Q), n = 0;
       lp_value_t* roots = (lp_value_t*)malloc((d + 1) * sizeof(lp_value_t));
       lp_polynomial_roots_isolate(p, M, roots, &n);
       lp_value_t ys[24]; int ny = 0;
@@ -360,7 +389,7 @@ static void main_case(int mode) {
         int reps = 1 + rnd(3);
         for (int r = 0; r < reps; ++r) {
           size_t k = rnd(d + 2); int c = rnd(6);
-          sb_begin("ev", "rcons"); sb_sp(); sb_poly(p); sb_sp(); sb_ulong(k); sb_sp(); sb_long(c); sb_sp(); sb_asg(); sb_sp(); sb_val(&ys[i]); sb_arrow();
+          sb_begin("ev", "rcons"); sb_sp(); PP(); sb_sp(); sb_ulong(k); sb_sp(); sb_long(c); sb_sp(); sb_asg(); sb_sp(); sb_val(&ys[i]); sb_arrow();
           lp_assignment_set_value(M, hp_x[3], &ys[i]);
           int b = lp_polynomial_root_constraint_evaluate(p, k, (lp_sign_condition_t)c, M);
           lp_assignment_set_value(M, hp_x[3], 0);
@@ -369,15 +398,16 @@ static void main_case(int mode) {
       }
       for (int i = 0; i < ny; ++i) lp_value_destruct(&ys[i]);
     } else {
-      size_t k = rnd(lp_polynomial_degree(p) + 2);
-      sb_begin("ev", "rfs"); sb_sp(); sb_poly(p); sb_sp(); sb_ulong(k); sb_sp(); sb_long(cond); sb_sp(); sb_long(neg); sb_sp(); sb_asg(); sb_arrow();
+      size_t k = rnd(lp_polynomial_degree(Q) + 2);
+      sb_begin("ev", "rfs"); sb_sp(); PP(); sb_sp(); sb_ulong(k); sb_sp(); sb_long(cond); sb_sp(); sb_long(neg); sb_sp(); sb_asg(); sb_arrow();
       lp_feasibility_set_t* s = lp_polynomial_root_constraint_get_feasible_set(p, k, (lp_sign_condition_t)cond, neg, M);
       sb_sp(); sb_vset(s); sb_emit();
       if (chance(40)) probe_membership(s);
       lp_feasibility_set_delete(s);
     }
   }
-  lp_polynomial_delete(p);
+  lp_polynomial_delete(p); if (tw) lp_polynomial_delete(tw); free(tokP);
+#undef PP
   lp_assignment_delete(M);
   for (int i = 0; i < nvals; ++i) lp_value_destruct(&vals[i]);
   nvals = 0;
